@@ -137,6 +137,19 @@ CLAIMS = {
        "agreement with ISO C for every flag/width/precision/value — is NOT decidable by this family and is not claimed.",
   note="Trusted: clang AST/CFG of tu/format.cpp (LP64 widths). Observation recorded in DESIGN.md §4: print_digits ignores the sign in the width computation.",
   design_ref="DESIGN.md §3 C19, §2 T"),
+ "C17": dict(
+  technique="static analysis: abstract interpretation of the engaged-flag typestate (flag x storage x other's flag x same-alternative relation) with bottom-up method summaries; compile-time type witnesses",
+  text="Decides structural clauses of C17: every public member of optional, expected, variant and manual_box is interpreted "
+       "from every consistent entry state (engaged/empty for *this and for the argument); on every path a value is placement-"
+       "constructed only into empty storage and destroyed only when present, the flag equals the storage state at every exit, "
+       "destructors leave nothing alive, assignment leaves the destination engaged iff the source was, emplace ends engaged, "
+       "no tag-dispatch chain is entered in a state where every path hits its terminal assertion, accessors trap when empty; "
+       "every non-void member returns; every member is well-formed (W1); tuple's access_helper selects item/tail by index and "
+       "its result types / reference preservation / tuple_cat order hold as static_asserts. Does not decide equality of held "
+       "values with the std types after arbitrary histories.",
+  note="Trusted: clang AST/CFG of tu/holders.cpp, tu/typelevel.cpp; engagement predicates per class are a frozen table (flag field, "
+       "storage field, accessor names) confirmed by reading.",
+  design_ref="DESIGN.md §3 C17, §2 O6/D/R/W"),
 }
 
 NOT_YET = "check not built yet in this revision (see DESIGN.md §7 order of work); not claimed until it exists"
